@@ -49,7 +49,11 @@ def run_search(tid, cands, profile, winner, fn, hint, total=None, with_means=Fal
         _LAST["key"] = ckey
         _LAST["contest"] = RC("con", list(cands), cands[(len(profile) + total) % len(cands)], total, order=list(hint or []))
     contest = _LAST["contest"]        # the same Contest object serves consecutive searches on the same election
-    cvrs = {f"b{k}": {"con": {c: j for j, c in enumerate(b)}} for k, b in enumerate(profile)}
+    # a ballot is the ranks, not the order of the keys: the loaders store candidates in the order the contest declares them
+    def ballot(k, b):
+        d = {c: j for j, c in enumerate(b)}
+        return dict(sorted(d.items(), key=lambda kv: cands.index(kv[0]))) if (k + len(profile)) % 2 else d
+    cvrs = {f"b{k}": {"con": ballot(k, b)} for k, b in enumerate(profile)}
     # cards carry other contests too - over the same candidate identifiers - and some cards carry only those
     nextra = (len(profile) * 7 + total) % 4
     other = list(reversed(cands))
@@ -180,6 +184,8 @@ def vote_records(cands):
             k += 1
             try:
                 rcv = {"con": {c: j for j, c in enumerate(b)}}
+                if k % 2:      # keys in the contest's declared order (as the loaders store them), ranks unchanged
+                    rcv = {"con": dict(sorted(rcv["con"].items(), key=lambda kv: cands.index(kv[0])))}
                 rec["raire_w"] = int(ra.is_vote_for_winner(rcv))
                 rec["raire_l"] = int(ra.is_vote_for_loser(rcv))
                 # (the record's keys in any insertion order: a ranking is the values, not the order of the keys)
